@@ -15,21 +15,19 @@ VARIABLES ty, toks
 
 \* ---------------------------------------------------------------- pools (texts are code points; comment = the spelling)
 NullLeaf == Leaf("null", <<110, 117, 108, 108>>)
-ListE(items) == [k |-> "list", text |-> <<>>, items |-> items, keys |-> <<>>]
-ObjE(keys, items) == [k |-> "obj", text |-> <<>>, items |-> items, keys |-> keys]
 \* 7  -0  0  -12  2147483647
 LitInt == <<Leaf("num", <<55>>),
     Leaf("num", <<45, 48>>),
     Leaf("num", <<48>>),
     Leaf("num", <<45, 49, 50>>),
     Leaf("num", <<50, 49, 52, 55, 52, 56, 51, 54, 52, 55>>)>>
-\* 1.50  1e3  1E+3  -1.0e-2  0.0  7  123456789012345  1.5E+3
-LitFloat == <<Leaf("num", <<49, 46, 53, 48>>),
+\* 7  1.50  1e3  1E+3  -1.0e-2  0.0  123456789012345  1.5E+3     (7 first: the same literal at Int, ID and Float positions)
+LitFloat == <<Leaf("num", <<55>>),
+    Leaf("num", <<49, 46, 53, 48>>),
     Leaf("num", <<49, 101, 51>>),
     Leaf("num", <<49, 69, 43, 51>>),
     Leaf("num", <<45, 49, 46, 48, 101, 45, 50>>),
     Leaf("num", <<48, 46, 48>>),
-    Leaf("num", <<55>>),
     Leaf("num", <<49, 50, 51, 52, 53, 54, 55, 56, 57, 48, 49, 50, 51, 52, 53>>),
     Leaf("num", <<49, 46, 53, 69, 43, 51>>)>>
 \* "a"  ""  "\n\"\\"  "\u00e9\uD83D\uDE00"  """x"""  """<LF>  a<LF>   b<LF>"""
@@ -45,10 +43,10 @@ LitBoolean == <<Leaf("bool", <<116, 114, 117, 101>>),
 \* A B
 LitE == <<Leaf("enum", <<65>>),
     Leaf("enum", <<66>>)>>
-\* 12345678901234567890  7  "x"  "0012"
-LitID == <<Leaf("num", <<49, 50, 51, 52, 53, 54, 55, 56, 57, 48, 49, 50, 51, 52, 53, 54, 55, 56, 57, 48>>),
-    Leaf("num", <<55>>),
-    Leaf("str", <<120>>),
+\* 7  "a"  12345678901234567890  "0012"
+LitID == <<Leaf("num", <<55>>),
+    Leaf("str", <<97>>),
+    Leaf("num", <<49, 50, 51, 52, 53, 54, 55, 56, 57, 48, 49, 50, 51, 52, 53, 54, 55, 56, 57, 48>>),
     Leaf("str", <<48, 48, 49, 50>>)>>
 \* 12345678901234567890  1E+3  -1.0e-2  "a\tb"  true      (nested positions use the first two)
 LitBig == <<Leaf("num", <<49, 50, 51, 52, 53, 54, 55, 56, 57, 48, 49, 50, 51, 52, 53, 54, 55, 56, 57, 48>>),
@@ -96,15 +94,24 @@ JIn == <<ObjE(<< <<105>>, <<115>> >>, <<JInt[1], NullLeaf>>),
          ObjE(<<>>, <<>>),
          ObjE(<< <<111>>, <<101>> >>, <<ObjE(<< <<108>> >>, <<ListE(<<JInt[1]>>)>>), JE[2]>>)>>
 JLIn == <<ListE(<<JIn[1], NullLeaf>>)>>
+\* {}   {"i":1,"o":{}}   {"s":null,"lo":[{}]}          {}  {"x":2}
+JInD2 == <<ObjE(<<>>, <<>>), ObjE(<< <<120>> >>, <<JInt[1]>>)>>
+JInD == <<ObjE(<<>>, <<>>),
+          ObjE(<< <<105>>, <<111>> >>, <<JInt[1], ObjE(<<>>, <<>>)>>),
+          ObjE(<< <<115>>, <<108, 111>> >>, <<NullLeaf, ListE(<<ObjE(<<>>, <<>>)>>)>>)>>
+JLInD == <<ListE(<<JInD[1], JInD[2]>>)>>
+JLInD2 == <<ListE(<<JInD2[1], NullLeaf>>)>>
 
 ScalarTys == {"Int", "Float", "String", "Boolean", "ID", "E", "Big", "NStr"}
-ListTys == {"LInt", "LStr", "LE", "LIn", "LLInt", "LBig"}
+ListTys == {"LInt", "LStr", "LE", "LIn", "LLInt", "LBig", "LInD", "LInD2"}
+ObjTys == {"In", "InD", "InD2", "M"}
 LitPool(t) == CASE t = "Int" -> LitInt [] t = "Float" -> LitFloat [] t = "String" -> LitString [] t = "NStr" -> LitString
                 [] t = "Boolean" -> LitBoolean [] t = "ID" -> LitID [] t = "E" -> LitE [] t = "Big" -> LitBig [] OTHER -> <<>>
 JPool(t) == CASE t = "Int" -> JInt [] t = "Float" -> JFloat [] t = "String" -> JString [] t = "NStr" -> JString
               [] t = "Boolean" -> JBoolean [] t = "ID" -> JID [] t = "E" -> JE [] t = "Big" -> JBig
               [] t = "LInt" -> JLInt [] t = "LStr" -> JLStr [] t = "LE" -> JLE [] t = "LLInt" -> JLLInt [] t = "LBig" -> JLBig
-              [] t = "In" -> JIn [] t = "LIn" -> JLIn [] OTHER -> <<>>
+              [] t = "In" -> JIn [] t = "LIn" -> JLIn [] t = "InD" -> JInD [] t = "InD2" -> JInD2 [] t = "LInD" -> JLInD
+              [] t = "LInD2" -> JLInD2 [] OTHER -> <<>>
 \* default value literal of a variable of that type
 DefaultLit(t) == CASE t = "LInt" -> ListE(<<LitInt[1]>>) [] t = "In" -> ObjE(<< <<105>> >>, <<LitInt[1]>>)
                    [] t \in ScalarTys -> LitPool(t)[IF t \in {"String", "NStr"} THEN 3 ELSE 1] [] OTHER -> Omit
@@ -112,7 +119,10 @@ DefaultLit(t) == CASE t = "LInt" -> ListE(<<LitInt[1]>>) [] t = "In" -> ObjE(<< 
 Width(pool, d) == IF d = MaxDepth THEN Len(pool) ELSE Min2(Len(pool), 2)
 
 Keys == { <<105>>, <<115>>, <<102>>, <<98>>, <<101>>, <<100>>, <<103>>, <<108>>, <<108, 115>>, <<111>>, <<108, 111>> }
-KeySeqs == {<<>>} \cup {<<a>> : a \in Keys} \cup {<<q[1], q[2]>> : q \in {p \in Keys \X Keys : p[1] # p[2]}}
+KeysOf(t) == IF t = "In" THEN Keys ELSE {ObjKeyTy(t)[i][1] : i \in 1..Len(ObjKeyTy(t))}
+KeySeqsOf(t) == LET K == KeysOf(t) IN
+                {<<>>} \cup {<<a>> : a \in K} \cup {<<q[1], q[2]>> : q \in {p \in K \X K : p[1] # p[2]}}
+                \cup (IF t = "M" THEN {<<q[1], q[2], q[3]>> : q \in {p \in K \X K \X K : p[1] # p[2] /\ p[1] # p[3] /\ p[2] # p[3]}} ELSE {})
 
 \* ---------------------------------------------------------------- tokens
 NoVar == [st |-> "none", j |-> Omit, hasd |-> FALSE, dv |-> Omit]
@@ -131,20 +141,22 @@ VarStates(t, d) ==
 \* String! position: a variable with a default may be declared String, otherwise it must be String!
 DeclTy(t, vs) == IF t = "NStr" /\ vs.hasd THEN "String" ELSE t
 
-Prods(t, d, top) ==
-  {<<LeafTok(LitPool(t)[i])>> : i \in 1..Width(LitPool(t), d)}
-  \cup (IF t = "NStr" THEN {} ELSE {<<LeafTok(NullLeaf)>>})
-  \cup {<<Tok("var", <<>>, 0, DeclTy(t, vs), <<>>, 0, vs)>> : vs \in VarStates(t, d)}
+Prods(t0, d, top) ==
+  LET t == Base(t0) IN
+  (IF t = "M" THEN {} ELSE
+    {<<LeafTok(LitPool(t)[i])>> : i \in 1..Width(LitPool(t), d)}
+    \cup (IF t = "NStr" THEN {} ELSE {<<LeafTok(NullLeaf)>>})
+    \cup {<<Tok("var", <<>>, 0, DeclTy(t, vs), <<>>, 0, vs)>> : vs \in VarStates(t, d)})
   \cup (IF (t \in ListTys \/ t = "Big") /\ d > 0
         THEN {<<Tok("list", <<>>, n, "", <<>>, 0, NoVar)>> \o [x \in 1..n |-> Hole(ElemTy(t), d - 1)] : n \in 0..2}
         ELSE {})
-  \cup (IF t = "In" /\ d > 0
-        THEN {<<Tok("obj", <<>>, Len(ks), "", ks, 0, NoVar)>> \o [x \in 1..Len(ks) |-> Hole(InFieldTy(ks[x]), d - 1)] : ks \in KeySeqs}
+  \cup (IF t \in ObjTys /\ d > 0
+        THEN {<<Tok("obj", <<>>, Len(ks), "", ks, 0, NoVar)>> \o [x \in 1..Len(ks) |-> Hole(FieldTy(t, ks[x]), d - 1)] : ks \in KeySeqsOf(t)}
         ELSE {})
   \cup (IF t = "Big" /\ d > 0
         THEN {<<Tok("obj", <<>>, Len(ks), "", ks, 0, NoVar)>> \o [x \in 1..Len(ks) |-> Hole("Big", d - 1)] : ks \in {<< <<122>> >>, << <<122>>, <<121>> >>}}
         ELSE {})
-  \cup (IF top THEN {<<LeafTok(Omit)>>} ELSE {})
+  \cup (IF top /\ t # "M" THEN {<<LeafTok(Omit)>>} ELSE {})
 
 \* ---------------------------------------------------------------- the generator
 HasHole == \E i \in 1..Len(toks) : toks[i].k = "hole"
